@@ -153,3 +153,291 @@ fn run_c38(ctx: &mut Ctx, rep: &mut Report) {
     }
     rep.sample(json!({"legs": ["https trust anchor", "rrdp snapshot object", "rrdp delta object"], "limits": ["disabled", "s-1", "s", "s+1", "default"]}));
 }
+
+//------------ C31 -----------------------------------------------------------
+
+pub const C31: Check = Check {
+    id: "C31",
+    level: "exploration",
+    rule: "worlds (root on ordinary hosts, child CA below it) where the child's caRepository host or its rpkiNotify host takes every \
+           form of a table: ordinary names, 'localhost' in all case variants, names merely containing localhost, IPv4 literals, \
+           bracketed IPv6 literals (upper/lower case, v4-mapped), and each of them with an explicit port; run with \
+           allow-dubious-hosts off and on, RRDP and rsync both enabled, all three fallback policies. Observation at the peers: the \
+           fake rsync's invocation log and the fake HTTPS proxy's CONNECT/GET log. Oracle (own classifier): with the option off, \
+           no logged request may target a host that is 'localhost' (ignoring case), an IP literal or carries a port; with the \
+           option on the request must be seen (shows the observation channel is live). distinct = (host form, which URI, option) classes",
+    assumptions: &["host forms that rpki's URI parser rejects cannot appear in a certificate the validator accepts and are skipped (counted)"],
+    shards: |_| 8,
+    watchdog: |t| Duration::from_secs(t.pick(600, 3600)),
+    budget: |t| Duration::from_secs(t.pick(45, 600)),
+    run: run_c31,
+    crash_is_violation: false,
+    finish: None,
+};
+
+/// Independent classifier of the property's wording.
+fn dubious_host(authority: &str) -> (bool, &'static str) {
+    let a = authority;
+    // bracketed literal, possibly with port
+    if a.starts_with('[') {
+        return (true, if a.contains("]:") { "ipv6-literal-with-port" } else { "ipv6-literal" })
+    }
+    let (host, port) = match a.rsplit_once(':') { Some((h, p)) => (h, Some(p)), None => (a, None) };
+    let is_v4 = { let parts: Vec<&str> = host.split('.').collect(); parts.len() == 4 && parts.iter().all(|p| !p.is_empty() && p.len() <= 3 && p.chars().all(|c| c.is_ascii_digit()) && p.parse::<u32>().map(|n| n < 256).unwrap_or(false)) };
+    let is_local = host.eq_ignore_ascii_case("localhost");
+    if port.is_some() { return (true, if is_v4 { "ipv4-literal-with-port" } else if is_local { "localhost-with-port" } else { "name-with-port" }) }
+    if is_v4 { return (true, "ipv4-literal") }
+    if is_local { return (true, if host == "localhost" { "localhost" } else { "localhost-case-variant" }) }
+    (false, "name")
+}
+
+const HOST_FORMS: &[&str] = &[
+    "r1.rpki.test", "R1.Rpki.Test", "localhost.rpki.test", "notlocalhost", "localhost4",
+    "localhost", "LOCALHOST", "LocalHost", "localHOST", "Localhost",
+    "127.0.0.1", "10.1.2.3", "192.0.2.1", "0.0.0.0", "255.255.255.255", "1.1.1.1",
+    "[::1]", "[2001:db8::1]", "[2001:DB8::A]", "[::ffff:127.0.0.1]", "[fe80::1]",
+    "r1.rpki.test:873", "r1.rpki.test:8873", "r1.rpki.test:443", "R1.RPKI.TEST:8443", "localhost:873", "LOCALHOST:443",
+    "127.0.0.1:873", "127.0.0.1:443", "[::1]:873", "[::1]:8443",
+];
+
+fn run_c31(ctx: &mut Ctx, rep: &mut Report) {
+    use std::str::FromStr;
+    let mut rng = ctx.rng("c31");
+    let mut b = match Builder::new() { Ok(b) => b, Err(e) => { rep.inconclusive(e); return } };
+    let fake = match FakeHttps::start() { Ok(f) => f, Err(e) => { rep.inconclusive(format!("fake https: {e}")); return } };
+    let rounds = ctx.tier.pick(1usize, 6);
+    let mut case_no = 0usize;
+    for _round in 0..rounds {
+        for form in HOST_FORMS {
+            // which URI carries the form: 0 = caRepository of an rsync-only CA, 1 = rpkiNotify (rsync host ordinary),
+            // 2 = caRepository of a CA that also announces RRDP on an ordinary host
+            for which in 0..3usize {
+                for allow in [false, true] {
+                    case_no += 1;
+                    if case_no % ctx.shards != ctx.shard { continue }
+                    if !ctx.time_left() { rep.note("time budget reached"); return }
+                    let rsync_ok = rpki::uri::Rsync::from_str(&format!("rsync://{form}/repo/ca1/")).is_ok();
+                    let https_ok = rpki::uri::Https::from_str(&format!("https://{form}/rrdp/notification.xml")).is_ok();
+                    if (which != 1 && !rsync_ok) || (which == 1 && !https_ok) { rep.count("host_forms_rejected_by_uri_parser", 1); rep.class(format!("unrepresentable|{form}|{which}")); continue }
+                    let mut w = gen_chain(&mut rng, now_ts(), 1, 2);
+                    w.cas[0].repo = 0; w.cas[1].repo = 1;
+                    match which {
+                        0 => { w.cas[1].rrdp = false; w.host_override.insert(1, form.to_string()); }
+                        1 => { w.cas[1].rrdp = true; w.notify_host_override.insert(1, form.to_string()); }
+                        _ => { w.cas[1].rrdp = true; w.host_override.insert(1, form.to_string()); w.notify_host_override.insert(1, "n1.rpki.test".into()); }
+                    }
+                    let p = b.publish(&w);
+                    let mut env = Env::new(&ctx.scratch.join("env"));
+                    fake.clear();
+                    fake.configure(&mut env.config);
+                    env.config.allow_dubious_hosts = allow;
+                    env.config.disable_rsync = false;
+                    env.config.rrdp_fallback = *rng.pick(&[FallbackPolicy::Never, FallbackPolicy::Stale, FallbackPolicy::New]);
+                    // RRDP of the child fails in case 2 half of the time so that the rsync fallback is exercised too.
+                    let mut faults = BTreeMap::new();
+                    let rrdp_fails = which == 2 && rng.bool();
+                    if rrdp_fails { faults.insert(1usize, Faults { notify_status: Some(500), ..Default::default() }); }
+                    env.serve(&p);
+                    let mut servers = RrdpServers::default();
+                    servers.publish(&w, &p, &fake, &faults);
+                    fake.take_log();
+                    env.clear_rsync_log();
+                    ctx.begin_case(&json!({"form": form, "which": which, "allow": allow}));
+                    let out = run_engine(&env.config, true, &LocalExceptions::empty());
+                    rep.eval();
+                    if out.snapshot.is_none() { rep.inconclusive("run failed"); continue }
+                    let (dubious, class) = dubious_host(form);
+                    let target = form.to_ascii_lowercase();
+                    let which_s = ["caRepository", "rpkiNotify", "caRepository+rrdp"][which];
+                    // requests that reached the peers for this authority
+                    let rsync_hits: Vec<String> = env.rsync_log().iter().filter_map(|l| l.get("module").and_then(|m| m.as_str()).map(|s| s.to_string()))
+                        .filter(|m| m.split('/').next().map(|h| h.eq_ignore_ascii_case(&target)).unwrap_or(false)).collect();
+                    let https_hits: Vec<String> = fake.take_log().iter().filter(|l| {
+                        let t = l.path.to_ascii_lowercase(); let h = l.host.to_ascii_lowercase();
+                        // CONNECT target is host:port; the authority with explicit port equals the target, without port the host
+                        (l.method == "CONNECT" && (t == target || h == target || t == format!("{target}:443"))) || (l.method != "CONNECT" && h == target)
+                    }).map(|l| format!("{} {}", l.method, l.path)).collect();
+                    let replay = json!({"host": form, "uri": which_s, "allow_dubious_hosts": allow, "world": w, "rsync_requests": rsync_hits, "https_requests": https_hits});
+                    let seen = !rsync_hits.is_empty() || !https_hits.is_empty();
+                    if dubious && !allow {
+                        if !rsync_hits.is_empty() {
+                            rep.violation(format!("C31/rsync-request-to-dubious-host/{class}"), format!("rsync was started for {} (host '{form}' in {which_s}) although dubious hosts are not allowed", rsync_hits[0]), replay.clone());
+                        }
+                        if !https_hits.is_empty() {
+                            rep.violation(format!("C31/rrdp-request-to-dubious-host/{class}"), format!("an HTTPS request was started: {} (host '{form}' in {which_s}) although dubious hosts are not allowed", https_hits[0]), replay.clone());
+                        }
+                    } else if !seen {
+                        // vacuity guard: the channel must show the request when it is permitted
+                        let expected_rsync = which == 0 || (which == 2 && rrdp_fails && env.config.rrdp_fallback != FallbackPolicy::Never);
+                        let expected_https = which == 1;
+                        if expected_rsync || expected_https { rep.inconclusive(format!("permitted request for host '{form}' ({which_s}, allow={allow}) never reached the fakes")); rep.count("permitted_request_not_seen", 1); }
+                    }
+                    rep.class(format!("{class}|{form}|{which_s}|allow{}|seen{}", allow as u8, seen as u8));
+                    if seen { rep.count("requests_seen_for_host_under_test", 1); }
+                    if dubious && !allow && !seen { rep.count("dubious_blocked", 1); }
+                    if rep.samples.len() < 2 && dubious && allow && seen { rep.sample(json!({"host": form, "uri": which_s, "rsync": rsync_hits, "https": https_hits})); }
+                }
+            }
+        }
+    }
+}
+
+//------------ C29 -----------------------------------------------------------
+
+pub const C29: Check = Check {
+    id: "C29",
+    level: "exhaustive_bounded",
+    rule: "full product fallback policy {never,stale,new} x RRDP outcome {updated(snapshot), updated(delta), not-modified, failed with \
+           current copy, failed with expired copy (virtual clock moved past rrdp-fallback-time), failed with no copy} x RRDP enabled/disabled x rsync \
+           enabled/disabled x child CA with/without rpkiNotify. The child's publication point exists in three versions with different \
+           marker VRPs: v1 (primed/stored), v2 (current RRDP content), v3 (rsync content), so the served payload names the transport \
+           that was used; the fake rsync log and fake HTTPS log name the transport that was asked. Oracle: decision table written from \
+           the property statement. distinct = table cells",
+    assumptions: &["'expired' is produced by moving the virtual wall clock beyond refresh/rrdp-fallback-time after a successful update"],
+    shards: |_| 8,
+    watchdog: |t| Duration::from_secs(t.pick(600, 3600)),
+    budget: |t| Duration::from_secs(t.pick(60, 600)),
+    run: run_c29,
+    crash_is_violation: false,
+    finish: Some(finish_c29),
+};
+
+#[derive(Clone, Copy, Debug, PartialEq, Eq)]
+enum Outcome { UpdatedSnapshot, UpdatedDelta, NotModified, FailedCurrent, FailedStale, FailedNoCopy }
+
+#[derive(Clone, Copy, Debug, PartialEq, Eq)]
+enum Transport { Rrdp, Rsync, NoFetch }
+
+fn bump(w: &World, ca: usize, version: usize) -> World {
+    let mut w = w.clone();
+    let now = w.now;
+    let c = &mut w.cas[ca];
+    c.mft_number += version as u64; c.mft_this += 120 * version as i64; c.crl_this = c.mft_this; c.mft_ee_nb = c.mft_this - 60; c.mft_serial += version as u64;
+    c.objects.retain(|o| o.name != "marker.roa");
+    let mut m = crate::props::hist::marker(ca, version); m.nb = now - DAY; m.na = now + 50 * DAY;
+    c.objects.push(m);
+    w
+}
+
+fn run_c29(ctx: &mut Ctx, rep: &mut Report) {
+    let mut rng = ctx.rng("c29");
+    let mut b = match Builder::new() { Ok(b) => b, Err(e) => { rep.inconclusive(e); return } };
+    let fake = match FakeHttps::start() { Ok(f) => f, Err(e) => { rep.inconclusive(format!("fake https: {e}")); return } };
+    if !crate::clock::self_test() { rep.inconclusive("virtual clock shim inactive"); return }
+    let rounds = ctx.tier.pick(1usize, 5);
+    let mut case_no = 0usize;
+    let outcomes = [Outcome::UpdatedSnapshot, Outcome::UpdatedDelta, Outcome::NotModified, Outcome::FailedCurrent, Outcome::FailedStale, Outcome::FailedNoCopy];
+    for _round in 0..rounds {
+        let base = { let mut w = gen_chain(&mut rng, now_ts() - 600, 1, 2); w.cas[0].repo = 0; w.cas[1].repo = 1; w.cas[0].rrdp = true;
+            let mut m = crate::props::hist::marker(0, 0); m.nb = w.now - DAY; m.na = w.now + 50 * DAY; w.cas[0].objects.push(m); w };
+        for policy in [FallbackPolicy::Never, FallbackPolicy::Stale, FallbackPolicy::New] {
+        for outcome in outcomes {
+        for rrdp_on in [true, false] {
+        for rsync_on in [true, false] {
+        for notify in [true, false] {
+            // outcomes only differ when RRDP is consulted for the child
+            if (!rrdp_on || !notify) && outcome != Outcome::UpdatedSnapshot && outcome != Outcome::FailedCurrent { continue }
+            case_no += 1;
+            if case_no % ctx.shards != ctx.shard { continue }
+            if !ctx.time_left() { rep.note("time budget reached"); crate::clock::set_offset(0); return }
+            crate::clock::set_offset(0);
+            let mut w0 = base.clone();
+            w0.cas[1].rrdp = notify;
+            let w1 = bump(&w0, 1, 1);
+            let w2 = bump(&w0, 1, 2);
+            let w3 = bump(&w0, 1, 3);
+            let (p1, p2, p3) = (b.publish(&w1), b.publish(&w2), b.publish(&w3));
+            let ta = p1.files.get(&w1.ta_uri(0, 0)).unwrap().clone();
+            let ta_url = "https://ta.rpki.test/ta/root.cer";
+            let with_https_tal = |p: &crate::world::build::Published| { let mut p = p.clone(); p.tals[0].1 = format!("{ta_url}\n{}", p.tals[0].1); p };
+            let mut env = Env::new(&ctx.scratch.join("env"));
+            fake.clear();
+            fake.configure(&mut env.config);
+            env.config.rrdp_fallback = policy;
+            env.config.refresh = Duration::from_secs(10);
+            env.config.rrdp_fallback_time = Duration::from_secs(30);
+            env.config.disable_rrdp = !rrdp_on;
+            env.config.disable_rsync = !rsync_on;
+            let mut servers = RrdpServers::default();
+            let primed = matches!(outcome, Outcome::UpdatedDelta | Outcome::NotModified | Outcome::FailedCurrent | Outcome::FailedStale) && rrdp_on && notify;
+            if primed {
+                env.serve(&with_https_tal(&p1));
+                servers.publish(&w1, &p1, &fake, &BTreeMap::new());
+                fake.set(ta_url, Reply::ok(ta.to_vec()));
+                let o = run_engine(&env.config, true, &LocalExceptions::empty());
+                let ok = o.snapshot.as_ref().map(|s| observe(s).vrps.iter().any(|v| crate::props::hist::marker_version(v) == Some((1, 1)))).unwrap_or(false);
+                if !ok { rep.inconclusive(format!("priming run did not produce version 1 of the child ({:?}, rsync {rsync_on})", policy)); continue }
+            }
+            // test-run content: rsync serves v3, RRDP serves v2 (or still v1 for not-modified)
+            env.serve(&with_https_tal(&p3));
+            let mut faults = BTreeMap::new();
+            match outcome {
+                Outcome::UpdatedSnapshot | Outcome::UpdatedDelta => servers.publish(&w2, &p2, &fake, &faults),
+                Outcome::NotModified => servers.publish(&w1, &p1, &fake, &faults),
+                Outcome::FailedCurrent | Outcome::FailedStale | Outcome::FailedNoCopy => {
+                    faults.insert(1usize, match rng.usize(3) { 0 => Faults { notify_status: Some(500), ..Default::default() }, 1 => Faults { notify_broken_xml: true, ..Default::default() }, _ => Faults { snapshot_status: Some(404), delta_fault: Some((0, crate::net::rrdp::DeltaFault::Status(404))), ..Default::default() } });
+                    servers.publish(&w2, &p2, &fake, &faults);
+                }
+            }
+            fake.set(ta_url, Reply::ok(ta.to_vec()));
+            if outcome == Outcome::FailedStale { crate::clock::set_offset(120); }
+            fake.take_log();
+            env.clear_rsync_log();
+            crate::caplog::install(log::LevelFilter::Debug); crate::caplog::clear();
+            ctx.begin_case(&json!({"policy": format!("{policy:?}"), "outcome": format!("{outcome:?}"), "rrdp": rrdp_on, "rsync": rsync_on, "notify": notify}));
+            let out = run_engine(&env.config, true, &LocalExceptions::empty());
+            crate::clock::set_offset(0);
+            rep.eval();
+            let Some(snap) = out.snapshot else { rep.inconclusive("run failed"); continue };
+            // --- oracle: the property's table
+            let consult_rrdp = notify && rrdp_on;
+            let expected = if !consult_rrdp { if rsync_on { Transport::Rsync } else { Transport::NoFetch } } else {
+                match outcome {
+                    Outcome::UpdatedSnapshot | Outcome::UpdatedDelta | Outcome::NotModified => Transport::Rrdp,
+                    Outcome::FailedNoCopy => if rsync_on && matches!(policy, FallbackPolicy::New | FallbackPolicy::Stale) { Transport::Rsync } else { Transport::NoFetch },
+                    Outcome::FailedStale => if rsync_on && matches!(policy, FallbackPolicy::Stale) { Transport::Rsync } else { Transport::NoFetch },
+                    Outcome::FailedCurrent => Transport::NoFetch,
+                }
+            };
+            let expected_version: Option<usize> = match expected {
+                Transport::Rsync => Some(3),
+                Transport::Rrdp => Some(if outcome == Outcome::NotModified { 1 } else { 2 }),
+                Transport::NoFetch => if primed { Some(1) } else { None },
+            };
+            // --- observation
+            let rsync_asked = env.rsync_log().iter().any(|l| l.get("module").and_then(|m| m.as_str()).map(|m| m.starts_with("r1.rpki.test/")).unwrap_or(false));
+            let https_log = fake.take_log();
+            let rrdp_asked = https_log.iter().any(|l| l.method == "GET" && l.host == "r1.rpki.test" && l.path.ends_with("notification.xml"));
+            let versions: std::collections::BTreeSet<usize> = observe(&snap).vrps.iter().filter_map(crate::props::hist::marker_version).filter(|(ca, _)| *ca == 1).map(|(_, v)| v).collect();
+            let root_ok = observe(&snap).vrps.iter().any(|v| crate::props::hist::marker_version(v) == Some((0, 0)));
+            let cell = format!("{policy:?}|{outcome:?}|rrdp{}|rsync{}|notify{}", rrdp_on as u8, rsync_on as u8, notify as u8);
+            let replay = json!({"cell": cell, "expected_transport": format!("{expected:?}"), "expected_child_version": expected_version, "observed_child_versions": versions,
+                "rsync_asked_for_child": rsync_asked, "rrdp_asked_for_child": rrdp_asked, "world": w0});
+            if !rrdp_on && !rsync_on { rep.class(format!("{cell}|no-collector")); if rsync_asked || rrdp_asked { rep.violation("C29/request-with-both-transports-disabled", "a transport was asked although both are disabled", replay); } continue }
+            if !root_ok { rep.inconclusive(format!("root CA contributed nothing in cell {cell}; vrps {:?} log {:?} https log {:?}; rsync log {:?}", observe(&snap).vrps.iter().map(fmt_vrp).collect::<Vec<_>>(), crate::caplog::take(), https_log.iter().map(|l| format!("{} {}{}", l.method, l.host, l.path)).collect::<Vec<_>>(), env.rsync_log())); continue }
+            let sig_cell = format!("{policy:?}/{outcome:?}/rrdp{}/rsync{}/notify{}", rrdp_on as u8, rsync_on as u8, notify as u8);
+            if rsync_asked && expected != Transport::Rsync {
+                rep.violation(format!("C29/unexpected-rsync/{sig_cell}"), format!("rsync was asked for the child's module in cell {cell} where the table says {expected:?}"), replay.clone());
+            }
+            if !rsync_asked && expected == Transport::Rsync {
+                rep.violation(format!("C29/rsync-not-used/{sig_cell}"), format!("rsync was not asked for the child's module in cell {cell} where the table demands the fallback / rsync"), replay.clone());
+            }
+            if consult_rrdp && !rrdp_asked { rep.violation(format!("C29/rrdp-not-tried/{sig_cell}"), format!("RRDP was never asked for the child in cell {cell}"), replay.clone()); }
+            if !consult_rrdp && rrdp_asked { rep.violation(format!("C29/rrdp-asked-though-not-applicable/{sig_cell}"), format!("RRDP was asked for the child in cell {cell}"), replay.clone()); }
+            let got: Option<usize> = if versions.len() == 1 { versions.iter().next().cloned() } else { None };
+            if versions.len() > 1 || got != expected_version {
+                rep.violation(format!("C29/wrong-data-used/{sig_cell}"), format!("child's data version served: {:?}, expected {:?} (1 = stored copy, 2 = RRDP content, 3 = rsync content) in cell {cell}", versions, expected_version), replay.clone());
+            }
+            rep.class(format!("{cell}|{expected:?}"));
+            rep.count(&format!("cells_{expected:?}"), 1);
+            if rep.samples.len() < 2 && expected == Transport::Rsync && consult_rrdp { rep.sample(json!({"cell": cell, "expected": format!("{expected:?}"), "child_version_served": got, "rsync_asked": rsync_asked, "rrdp_asked": rrdp_asked})); }
+        }}}}}
+    }
+    crate::clock::set_offset(0);
+}
+
+fn finish_c29(_t: crate::core::Tier, rep: &mut Report) {
+    for c in ["cells_Rrdp", "cells_Rsync", "cells_NoFetch"] {
+        if rep.counters.get(c).copied().unwrap_or(0) == 0 { rep.inconclusive(format!("no table cell with expected {c} was evaluated")); rep.count("inconclusive_fatal", 1); }
+    }
+}
